@@ -103,6 +103,16 @@ CHECKS = {
          "Capture exactness rests on a sufficient separator condition, not on a full ambiguity decision.",
     technique="regex inclusion/emptiness in z3 + symbolic execution of real code (CrossHair/z3)",
     ref="DESIGN.md §2 C07"),
+ "C05": dict(
+    text="Symbolic execution of note_array_from_part / note_array_from_note_list / rest_array_from_part (one part with a tie chain, a grace note, "
+         "a note without voice/staff and a rest; symbolic onset/split/step/voice/fifths; include_* option tuples) and of "
+         "note_array_from_part_list / Score.note_array (2-3 parts with different divisions, optional empty part, unique ids) against row oracles "
+         "written from the statement: one row per sounding note, timeline values, exact quarter/beat formulas, optional columns, order by onset "
+         "then pitch, lcm rescaling. Path trees exhausted per instance.",
+    note="float32 storage of the f4 columns is compared with tolerance 1e-6; several notes are pinned to keep the number of orderings "
+         "tractable (stated per harness); the inverse direction note_array_to_score is not covered. Models: interp1d, PPoly, defaultdict, np.",
+    technique="symbolic execution of real code (CrossHair/z3) vs row oracle",
+    ref="DESIGN.md §2 C05"),
 }
 NOT_APPLICABLE = {
  "C18": "float32/transcendental codec chain (log2, 2**x, mean/std, symbolic/symbolic division) over ~600 lines of vectorised numpy: non-linear with transcendental terms, z3 answers unknown; no sound bounded encoding within reach (DESIGN.md §2 C18)",
